@@ -223,7 +223,12 @@ int s_advance_to_closing_tag(
                 if (open_find_result.ptr < close_find_result.ptr) {
                     size_t skip_len = open_find_result.ptr - parser->doc.ptr;
                     aws_byte_cursor_advance(&parser->doc, skip_len + 1);
-                    depth_count++;
+                    /* only a tag with exactly this name nests: "<ab" does not open another "a".
+                     * The byte after the match is in bounds, the closing tag follows it. */
+                    uint8_t after_name = open_find_result.ptr[to_find_open.len];
+                    if (after_name == ' ' || after_name == '>' || after_name == '/') {
+                        depth_count++;
+                    }
                     continue;
                 }
             }
